@@ -21,7 +21,8 @@
 From Coq Require Import List NArith ZArith Bool.
 Import ListNotations.
 Require Import V.models.SnapSeq V.proofs.SnapSeqProofs V.proofs.SnapSeqProofs2 V.proofs.SnapSeqProofs3 V.proofs.SnapSeqProofs4
-               V.proofs.SnapSeqProofs5 V.proofs.SnapSeqProofs6 V.proofs.SnapSeqProofs7 V.proofs.SnapSeqProofs8 V.proofs.SnapSeqProofs9.
+               V.proofs.SnapSeqProofs5 V.proofs.SnapSeqProofs6 V.proofs.SnapSeqProofs7 V.proofs.SnapSeqProofs8 V.proofs.SnapSeqProofs9
+               V.proofs.SnapSeqProofs10.
 Open Scope N_scope.
 
 Theorem C11_invariant_content : forall s : st, wf s ->
@@ -67,10 +68,12 @@ Print Assumptions C11_consistent_invariant.
    RemoveSnapFiles) and is then run again from the top on whatever the first attempt left in the state.  Its effects in order
    (discard_plan: RemoveSnapFiles, DeleteSnapConfig for the last revision, DiscardRevisionConfig, and LAST the write of the
    trimmed record computed from the state read at the start) make up the handler (C11_discard_effects), and re-running it
-   after a failure at any internal point reaches the same state as one undisturbed run.  PARTIAL with respect to `every
-   handler`: the other handlers of the model have no recorded effect before their first backend call (unlink-snap,
-   unlink-current-snap, link-snap, clear-snap: the driver injects failures of those calls and finds the change undone as if
-   the task had failed before starting); re-runs after a restart are not modelled. *)
+   after a failure at any internal point reaches the same state as one undisturbed run.  The other handlers that change both
+   the recorded state and the disk are given in the same ordered-effects form further below (unlink-current-snap, mount-snap
+   and its undo, link-snap) with `failure after any effect + the handler's own cleanup = nothing happened`.  NOT in this
+   form: undoLinkSnap (its configuration restore precedes the backend UnlinkSnap; a re-run is not proved idempotent here),
+   doCopySnapData / its undo (data directories are not modelled; the driver injects a copy-data failure and finds the change
+   undone), re-runs after a restart. *)
 Theorem C11_discard_effects : forall (r : N) (s : st), discard_run r s (discard_plan r s) s = do_discard r s.
 Proof. exact discard_plan_is_discard. Qed.
 Print Assumptions C11_discard_effects.
@@ -89,6 +92,44 @@ Example C11_retry_needs_set_last :
   let early := apply_deffect 1 s s ESet in
   seq (do_discard 1 s) = [2] /\ seq (do_discard 1 early) = [] /\ mounted (do_discard 1 early) = [2] /\ link (do_discard 1 early) = 2.
 Proof. exact retry_needs_set_last. Qed.
+
+(* doUnlinkCurrentSnap = backend UnlinkSnap, then Set(Active=false); when UnlinkSnap fails (with or without having taken
+   effect) restoreUnlinkOnError links the old revision again: nothing happened *)
+Theorem C11_unlink_current_effects : forall s : st, run_effects uc_effects s = do_unlink_current s.
+Proof. exact uc_effects_ok. Qed.
+Print Assumptions C11_unlink_current_effects.
+
+Theorem C11_unlink_current_failure_is_clean : forall (s : st) (i : nat), wf s -> active s = true -> (i <= 1)%nat ->
+  uc_cleanup s (run_effects (firstn i uc_effects) s) = s.
+Proof. exact uc_failure_cleanup. Qed.
+Print Assumptions C11_unlink_current_failure_is_clean.
+
+(* doMountSnap = backend SetupSnap; its error path undoes the setup: nothing happened.  undoMountSnap re-run = run once *)
+Theorem C11_mount_failure_is_clean : forall (r : N) (s : st) (i : nat), wf s -> ~ In r (seq s) -> (i <= 1)%nat ->
+  run_effects (mount_effects r) s = do_mount r s /\
+  mount_cleanup r (run_effects (firstn i (mount_effects r)) s) = s.
+Proof. intros r s i W NI L. split; [apply mount_effects_ok|apply mount_failure_cleanup; auto]. Qed.
+Print Assumptions C11_mount_failure_is_clean.
+
+Theorem C11_undo_mount_retry_idempotent : forall (r : N) (s : st) (i : nat), (i <= 1)%nat ->
+  undo_mount r (run_effects (firstn i (undo_mount_effects r)) s) = undo_mount r s.
+Proof. exact undo_mount_retry_idempotent. Qed.
+Print Assumptions C11_undo_mount_retry_idempotent.
+
+(* doLinkSnap = backend LinkSnap, SaveRevisionConfig, RestoreRevisionConfig (reverts), and LAST the Set of the new record.
+   A failure after any of the first three effects runs the deferred UnlinkSnap: on a snap that was not linked (always the
+   case when link-snap runs) every field is as before except the configuration bookkeeping (core = everything but config
+   and revision-config: a snapshot saved, or on a revert a configuration restored, before the failure stays); when LinkSnap
+   itself is what fails, nothing at all has changed *)
+Theorem C11_link_effects : forall (o : op) (s : st), run_effects (link_effects o s) s = fst (do_link o s).
+Proof. exact link_effects_ok. Qed.
+Print Assumptions C11_link_effects.
+
+Theorem C11_link_failure_is_clean : forall (o : op) (s : st) (i : nat), link s = 0 -> (i <= 3)%nat ->
+  core (link_cleanup (run_effects (firstn i (link_effects o s)) s)) = core s /\
+  ((i <= 1)%nat -> link_cleanup (run_effects (firstn i (link_effects o s)) s) = s).
+Proof. exact link_failure_cleanup. Qed.
+Print Assumptions C11_link_failure_is_clean.
 
 (* non-vacuity: install 1, refresh to 2, refresh to 3 failing after the last task (revision 1 is already garbage-collected),
    refresh to 3, revert to 2, disable, remove --revision 2 (the current one): kept [3], current 3 *)
